@@ -285,7 +285,8 @@ pub struct Meta {
 pub fn finish(ctx: &Ctx, rep: Report, meta: Meta) -> i32 {
     let known = load_known(ctx);
     let data = rep.into_data();
-    let replay_dir = ctx.verif_dir.join("evidence").join("replay");
+    let evidence_dir = std::env::var("VERIF_EVIDENCE_DIR").map(PathBuf::from).unwrap_or_else(|_| ctx.verif_dir.join("evidence"));
+    let replay_dir = evidence_dir.join("replay");
     let _ = std::fs::create_dir_all(&replay_dir);
 
     let mut new_violations = Vec::new();
@@ -370,7 +371,7 @@ pub fn finish(ctx: &Ctx, rep: Report, meta: Meta) -> i32 {
         "violations": new_violations.len(),
         "verdict": if !new_violations.is_empty() { "violated" } else if !inconclusive.is_empty() { "inconclusive" } else { "held on what was observed" },
     });
-    let evp = ctx.verif_dir.join("evidence").join(format!("{}.json", ctx.id));
+    let evp = evidence_dir.join(format!("{}.json", ctx.id));
     let tmp = evp.with_extension("json.tmp");
     std::fs::write(&tmp, serde_json::to_vec_pretty(&ev).unwrap()).expect("write evidence");
     std::fs::rename(&tmp, &evp).expect("rename evidence");
